@@ -9,6 +9,11 @@
 //  * epoll_wait returns, per run() call, first ONE batch with the scripted readiness of the client
 //    descriptors (in the scripted order, filtered the way epoll filters: registered events plus
 //    EPOLLHUP/EPOLLERR) or the real readiness (timeout 0), then the interrupt event.
+//  * a send call the script has no answer for (the implementation issues more send calls than the
+//    history anticipated) is answered would-block and marked `!unscripted` in the send log: a defined
+//    answer of the kernel that no oracle judges by itself.
+//  * every send call on a client descriptor is also recorded as a token of the ordered event trace
+//    the property monitor reads (serverwrite_kernel.h).
 // Up to two client descriptors (A = 0, B = 1).  C interface only (no nstd headers here).
 #include <stdio.h>
 #include <stdlib.h>
@@ -55,6 +60,7 @@ static int peer_open[NC];
 static sk_outcomes outq;
 static Bytes tx_log[NC], peer_rx[NC];
 static char sendlog[1024]; static size_t sendlog_n = 0;
+static Bytes trace, trace_copy;
 static int tag_sends = 0;
 static int registered[NC]; static unsigned reg_mask[NC]; static epoll_data_t reg_data[NC];
 static int ev_mode = SK_EV_OFF; static int phase = 2;
@@ -85,6 +91,7 @@ extern "C" void sk_reset()
   }
   outq.n = 0;
   sendlog_n = 0; sendlog[0] = 0; tag_sends = 0;
+  trace.n = 0;
   ev_mode = SK_EV_OFF; ev_n = 0; phase = 2;
   nregs = 0;
 }
@@ -125,6 +132,26 @@ extern "C" const char* sk_take_sendlog() { static char copy[1024]; memcpy(copy, 
 extern "C" int sk_registered(int idx) { return registered[idx]; }
 extern "C" unsigned sk_reg_mask(int idx) { return reg_mask[idx]; }
 
+extern "C" void sk_trace_add(const char* token)
+{
+  if(trace.n) b_add(trace, ",", 1);
+  b_add(trace, token, strlen(token));
+}
+extern "C" const char* sk_take_trace()
+{
+  trace_copy.n = 0;
+  b_add(trace_copy, trace.p, trace.n);
+  b_add(trace_copy, "", 1);
+  trace.n = 0;
+  return (const char*)trace_copy.p;
+}
+static void trace_send(int idx, size_t n, long r, char kind, int unscripted)
+{
+  char tok[96];
+  snprintf(tok, sizeof(tok), "S%d:%zu:%ld:%c%s", idx, n, r, kind, unscripted ? "u" : "");
+  sk_trace_add(tok);
+}
+
 static void log_send(int idx, size_t n, long r, const char* note)
 {
   char tag[4] = {0, 0, 0, 0};
@@ -146,16 +173,18 @@ extern "C" ssize_t send(int fd, const void* data, size_t n, int flags)
     --outq.n;
   }
   const char* note = "";
-  if(kind == SK_NONE) { kind = SK_FULL; note = "!unscripted"; }
+  int unscripted = 0;
+  if(kind == SK_NONE) { kind = SK_WOULDBLOCK; note = "!unscripted"; unscripted = 1; }
   if((flags & MSG_NOSIGNAL) == 0) note = "!nosignal-missing";
   long r;
   switch(kind) {
-  case SK_WOULDBLOCK: log_send(idx, n, -1, note); errno = EAGAIN; return -1;
-  case SK_ERROR: log_send(idx, n, -1, note); errno = ECONNRESET; return -1;
-  case SK_ZERO: log_send(idx, n, 0, note); return 0;
+  case SK_WOULDBLOCK: log_send(idx, n, -1, note); trace_send(idx, n, -1, 'w', unscripted); errno = EAGAIN; return -1;
+  case SK_ERROR: log_send(idx, n, -1, note); trace_send(idx, n, -1, 'f', 0); errno = ECONNRESET; return -1;
+  case SK_ZERO: log_send(idx, n, 0, note); trace_send(idx, n, 0, 'f', 0); return 0;
   case SK_FULL: r = (long)n; break;
   default: r = k < 1 ? 1 : k; if((size_t)r > n) r = (long)n; break;
   }
+  trace_send(idx, n, r, r > 0 ? 't' : 'f', 0);      // a send of 0 bytes returns 0: the library takes that for a closed connection
   // the kernel takes r bytes: they are now the operating system's, in this order
   b_add(tx_log[idx], data, (size_t)r);
   if(peer_open[idx]) {
@@ -197,6 +226,8 @@ extern "C" int epoll_wait(int epfd, struct epoll_event* events, int maxevents, i
     phase = 1;
     if(ev_mode == SK_EV_SCRIPT) {
       int m = 0;
+      for(int i = 0; i < ev_n; ++i)               // the socket is writable, whatever the library registered for
+        if((ev_native[i] & EPOLLOUT) && client_fd[ev_idx[i]] >= 0) sk_trace_add(ev_idx[i] ? "O1" : "O0");
       for(int i = 0; i < ev_n && m < maxevents; ++i) {
         int idx = ev_idx[i];
         if(!registered[idx]) continue;
@@ -206,6 +237,8 @@ extern "C" int epoll_wait(int epfd, struct epoll_event* events, int maxevents, i
       if(m) return m;
     } else if(ev_mode == SK_EV_REAL) {
       struct epoll_event tmp[64];
+      for(int i = 0; i < NC; ++i)                 // the send queue of the real socket pair is never full
+        if(client_fd[i] >= 0) sk_trace_add(i ? "O1" : "O0");
       int c = real_epoll_wait(epfd, tmp, 64, 0);
       int m = 0;
       for(int i = 0; i < c && m < maxevents; ++i)
